@@ -37,9 +37,9 @@ theorem den_ne_zero (r : Rat) : ((r.den : Nat) : Rat) ≠ 0 := by
   exact r.den_nz (Rat.natCast_eq_zero_iff.mp h)
 
 section
-variable (sp : Spell) (env : SEnv) (scope : List Sym)
+variable (sp : Spell) (env : SEnv) (sc : List Binding) (srt : Bool) (toS : Term → Sexp)
 
-theorem rd_decAtom (n : Nat) : rd env (scope.map Binding.var) (decAtom n) = .ok (Term.real (n : Rat), .real) := by
+theorem rd_decAtom (n : Nat) : rd env sc (decAtom n) = .ok (Term.real (n : Rat), .real) := by
   have h := decimal_read n
   simp only [decAtom, rd, atomTerm, h.1, h.2]
 
@@ -50,15 +50,14 @@ theorem ap_div_consts (x y : Rat) (hy : y ≠ 0) :
     applyTheory "/" [(Term.real x, .real), (Term.real y, .real)] = .ok (Term.real (x / y), .real) := by
   simp [applyTheory, leftFold, realDiv, isNumConst, Term.real, hy]
 
-theorem reads_realConst (hsp : SpellStd sp) (hsc : ScopeOK scope) (r : Rat) (τ : Ty)
+theorem reads_realConst (hsp : SpellStd sp) (hsc : ThFree sc) (r : Rat) (τ : Ty)
     (hty : (Term.node .realConst [] (.q r)).typeOf = some τ) (hS : stdTy .realConst (.q r) [] = some τ) :
-    Reads sp env scope (.node .realConst [] (.q r)) := by
+    NodeReads sp env sc srt toS .realConst [] (.q r) := by
   simp only [stdTy, Option.some.injEq] at hS
   subst hS
-  apply reads_of sp env scope _ _ _ hty (unfoldAV_plain _ _ _ (by decide))
-  rw [toSexpWith_node]
+  apply reads_of sp env sc srt toS _ _ _ _ _ hty (unfoldAV_plain srt _ _ _ (by decide))
   -- the body (without the sign) reads as |r|
-  have hbody : rd env (scope.map Binding.var)
+  have hbody : rd env sc
       (if r.den != 1 then Sexp.list [.atom (sp "walk_real_constant:1"), decAtom r.num.natAbs, decAtom r.den]
        else decAtom r.num.natAbs) = .ok (Term.real (if r < 0 then -r else r), .real) := by
     by_cases hd : r.den = 1
@@ -67,14 +66,14 @@ theorem reads_realConst (hsp : SpellStd sp) (hsc : ScopeOK scope) (r : Rat) (τ 
       rw [rd_decAtom, rat_abs_int r hd]
     · have : (r.den != 1) = true := by simpa using hd
       simp only [this, if_true, spell sp hsp "walk_real_constant:1" "/" (by decide)]
-      rw [rd_op env scope hsc "/" (by decide) _ [(Term.real (r.num.natAbs : Rat), .real), (Term.real (r.den : Rat), .real)]
+      rw [rd_op env sc hsc "/" (by decide) _ [(Term.real (r.num.natAbs : Rat), .real), (Term.real (r.den : Rat), .real)]
         (by simp [rdList, rd_decAtom]) (by simp), ap_div_consts _ _ (den_ne_zero r), rat_abs_div]
   simp only [nodeSexp, realSexp]
   generalize (if r.den != 1 then Sexp.list [.atom (sp "walk_real_constant:1"), decAtom r.num.natAbs, decAtom r.den]
        else decAtom r.num.natAbs) = body at hbody ⊢
   by_cases hneg : r < 0
   · simp only [hneg, if_true, spell sp hsp "walk_real_constant:0" "-" (by decide)] at hbody ⊢
-    rw [rd_op env scope hsc "-" (by decide) _ [(Term.real (-r), .real)] (by simp [rdList, hbody]) (by simp),
+    rw [rd_op env sc hsc "-" (by decide) _ [(Term.real (-r), .real)] (by simp [rdList, hbody]) (by simp),
       ap_neg_real, Rat.neg_neg]
     rfl
   · simp only [hneg, if_false] at hbody ⊢
